@@ -444,6 +444,11 @@ fn make_replay(def: &ScenarioDef, plan: &Plan, v: &Violation, no_min: bool) -> R
                 continue;
             }
             for ci in 0..best.phases[pi].clients.len() {
+                // daemons are the observers (drain loops, pollers): without them a rule of the kind "was not presented"
+                // is reproduced trivially, so they are never minimised away
+                if best.phases[pi].clients[ci].daemon {
+                    continue;
+                }
                 let mut chunk = best.phases[pi].clients[ci].ops.len().div_ceil(2).max(1);
                 loop {
                     let mut i = 0;
